@@ -69,6 +69,8 @@ func multiReader(data []byte, parts []MultiPart) io.Reader {
 			rs = append(rs, iotest.DataErrReader(bytes.NewReader(chunk)))
 		case "onebyte":
 			rs = append(rs, iotest.OneByteReader(bytes.NewReader(chunk)))
+		case "buffer":
+			rs = append(rs, bytes.NewBuffer(append([]byte(nil), chunk...)))
 		default:
 			rs = append(rs, strings.NewReader(string(chunk)))
 		}
